@@ -161,4 +161,10 @@ def orderMonitor (waits : List (List Nat)) (ivs : List Interval) : Option (Nat Ã
   ivs.findSome? fun x =>
     ((waits.getD x.holder []).find? fun j => earlyFor ivs x j).map fun j => (x.holder, j)
 
+/-- first (task, prerequisite) pair such that the task recorded a body although the body of the
+prerequisite is one that fails: `waitForTasks` must have returned the error instead -/
+def failMonitor (waits : List (List Nat)) (fails : List Bool) (ivs : List Interval) : Option (Nat Ã— Nat) :=
+  ivs.findSome? fun x =>
+    ((waits.getD x.holder []).find? fun j => fails.getD j false).map fun j => (x.holder, j)
+
 end Goat.MutexTasks
